@@ -414,17 +414,30 @@ def flush(ctx, prog, body):
 
 def qos2(ctx, prog, body):
     rule = "R-C06-qos2"
-    # recorded: pushed only by pubrec, popped only by pubcomp
-    for b, bb, t in call_sites(prog, r"VecDeque::<T, A>::(push_back|push_front|pop_front|pop_back|clear|drain|remove|retain|truncate|append|extend)$"):
+    # recorded: pushed only by pubrec, popped only by pubcomp, first in first out (whatever the container type)
+    nmut = 0
+    ends = {}
+    for b, bb, t in call_sites(prog, r"(VecDeque::<T, A>|Vec::<T, A>)::(push|push_back|push_front|pop|pop_front|pop_back|clear|drain|remove|swap_remove|retain|truncate|append|extend|insert)$"):
         fs = receiver_fields(b, t)
-        if not fs or fs[-1] != "recorded":
+        if not fs or fs[-1] != "recorded" or b.is_cleanup(bb):
             continue
         name = callee_path(t).rsplit("::", 1)[-1]
-        okc = (b.id.endswith("AckLog::pubrec") and name == "push_back") or (b.id.endswith("AckLog::pubcomp") and name == "pop_front")
+        nmut += 1
+        is_add = name in ("push", "push_back", "push_front", "insert")
+        is_take = name in ("pop", "pop_front", "pop_back", "remove", "swap_remove")
+        okc = (b.id.endswith("AckLog::pubrec") and is_add) or (b.id.endswith("AckLog::pubcomp") and is_take)
         if okc:
-            ctx.ok(rule, b.id, "recorded.%s" % name, site=b.loc(t.get("sp")))
+            ends["add" if is_add else "take"] = name
+            ctx.ok(rule, b.id, "recorded.%s" % name, site=b.loc(t.get("sp")), trivial=True)
         else:
-            ctx.violation(rule, b.id, "recorded.%s" % name, "the QoS 2 hold queue is mutated outside pubrec(push_back)/pubcomp(pop_front)", site=b.loc(t.get("sp")))
+            ctx.violation(rule, b.id, "recorded.%s" % name, "the QoS 2 hold queue is mutated outside pubrec(push)/pubcomp(pop)", site=b.loc(t.get("sp")))
+    ctx.floor(rule, "mutations of AckLog.recorded", nmut, 2)
+    fifo = (ends.get("add"), ends.get("take")) in (("push_back", "pop_front"), ("push_front", "pop_back"))
+    if fifo:
+        ctx.ok(rule, "router::logs::AckLog", "recorded is first-in-first-out (%s / %s): a release takes the oldest unreleased QoS 2 publish" % (ends["add"], ends["take"]))
+    else:
+        ctx.violation(rule, "router::logs::AckLog", "recorded is not first-in-first-out",
+                      "AckLog.recorded is filled with %s and emptied with %s: with two unreleased QoS 2 publishes a PUBREL forwards the wrong (newest) one" % (ends.get("add"), ends.get("take")))
     # no path from the pubrec registration to append_to_commitlog within the same iteration
     sw = packet_switch(body)
     dom = dominators(body)
